@@ -4,7 +4,7 @@
 (*  [ev |-> "contain", n, edges |-> <<<<a, b>>>>, reported |-> <<[root, chain, notes]>>, unparsed,   *)
 (*   accepted, cycle_errors]                                                                         *)
 (*  [ev |-> "alias", n, target |-> <<t1..tn>>, e019 |-> <<aliases>>, accepted]                        *)
-(*  [ev |-> "inherit", n, edges, accepted]                                                           *)
+(*  [ev |-> "inherit", n, edges, accepted, e037 |-> <<[root, chain]>>]                               *)
 EXTENDS Naturals, Sequences, FiniteSets, TLC, Json, IOUtils
 
 Rec == ndJsonDeserialize(IOEnv.TRACE)
@@ -47,7 +47,14 @@ AliasOk(e) ==
 
 InheritOk(e) ==
   LET S == 1..e.n  G == ToSet(e.edges)  loop == OnCycle(G, S) IN
-  e.accepted <=> (loop = {})
+  /\ e.accepted <=> (loop = {})
+  \* an interface that is accused of inheriting from itself does (one that merely derives from a loop does not), and the
+  \* chain the report shows is a real, closed path of base interfaces that starts at the accused interface
+  /\ \A i \in 1..Len(e.e037) :
+        LET r == e.e037[i]  c == r.chain IN
+        /\ r.root \in loop
+        /\ Len(c) >= 2 /\ c[1] = r.root /\ c[Len(c)] = r.root
+        /\ \A j \in 1..(Len(c) - 1) : <<c[j], c[j + 1]>> \in G
 
 EventOk == CASE E.ev = "contain" -> ContainOk(E)
              [] E.ev = "alias"   -> AliasOk(E)
